@@ -49,6 +49,7 @@ int main(int argc, char** argv) {
   }
   for (uint64_t s = g_args.seed0; s < g_args.seed0 + g_args.n; s++) {
     begin_case(s);
+    ND_CASE_GUARD();
     Rng r(s);
     mg::GenOpts go;
     go.force_sleep = true; go.actuators = false; go.allow_rk4 = false;
